@@ -11,6 +11,8 @@ from .. import gen_replace_c06 as g
 
 KINDS = g.KINDS
 KNOWN_TAG = "pair-coeffs-structure-without-table"
+ORPHAN_TAG = "orphan-coefficient-table"
+KNOWN_TAGS = (KNOWN_TAG, ORPHAN_TAG)
 DOCS = os.path.join(core.REPO, "docs", "examples")
 CORPUS = os.path.join(core.VERIF, "corpus", "C06")
 
@@ -174,6 +176,12 @@ def pair_clause(sj, rj):
     return "check" if nps == ns else "skip"
 
 
+def orphan_clause(sj, rj, kind):
+    """the input class of the known finding C06-orphan-coefficient-table: the structure has terms of the kind but no
+    coefficient table, the pattern has a coefficient table of the kind but no terms of it"""
+    return bool(sj["terms"][kind]) and not sj["types"][kind] and bool(rj["types"][kind]) and not rj["terms"][kind]
+
+
 def oracle(case, used, view):
     """the property, evaluated on one view of the result. Returns (failures, stats); a failure is
     (what, observed, tags)."""
@@ -255,10 +263,19 @@ def oracle(case, used, view):
 
     # --- atoms taken over from the pattern
     pclause = pair_clause(sj, rj)
+    # overlapping matches may retain the same structure atom in two different roles; when the pattern types of the
+    # roles differ the clause cannot hold for both matches: not decidable, counted as ambiguous (like terms below)
+    claims = {}
+    for k in range(len(used)):
+        for i, v in ident_s[k].items():
+            claims.setdefault(v, set()).add(rj["atoms"][i]["ty"])
+    contested = set(v for v, tys in claims.items() if len(tys) > 1)
+    if contested:
+        stats["conflict"] = True
     for k, m in enumerate(used):
         for i in range(nr):
             x = where(k, i)
-            if x is None:
+            if x is None or ident_s[k].get(i) in contested:
                 continue
             a, ra = view.atoms[x], rj["atoms"][i]
             rt = ra["ty"]
@@ -343,8 +360,13 @@ def oracle(case, used, view):
                     fail("original %s appears more often than before" % kind,
                          {"atoms": describe(key), "got": have, "want": txts})
                 else:
+                    # known finding: the structure's ids had NO text; an unused entry of the pattern's table now sits
+                    # at such an id.  Only exactly this is attributed to it.
+                    unused = set(norm(t) for t in rj["types"][kind])
+                    orphan = (orphan_clause(sj, rj, kind) and all(t is None for t in txts)
+                              and all(h is None or h in unused for h in have))
                     fail("original %s no longer resolves to its original coefficient text" % kind,
-                         {"atoms": describe(key), "got": have, "want": txts})
+                         {"atoms": describe(key), "got": have, "want": txts}, tags=[ORPHAN_TAG] if orphan else [])
         for key, have in got.items():
             if key not in want_pat and key not in want_old:
                 fail("a %s exists that is neither a pattern term of a replaced match nor a surviving original term"
@@ -398,7 +420,7 @@ def evaluate(case, out, files=True):
     nviews = 1
     if out.get("inputs_unchanged") is False:
         fails.append(("the replacement modified one of its inputs", None, []))
-    if files and not fails:
+    if files and not any(not set(t) & set(KNOWN_TAGS) for _, _, t in fails):
         try:
             text = write_lammps(res)
         except Exception as e:  # noqa
@@ -503,9 +525,12 @@ class Batch:
             if case["opts"].get("replace_all"):
                 ctx.count("replace_all")
             ctx.count("pair:%s" % pair_clause(case["s"], case["r"]))
+            for k in KINDS:
+                if orphan_clause(case["s"], case["r"], k):
+                    ctx.count("orphan-table-input:%s" % k)
         seen = set()
         for what, observed, tags in fails:
-            key = (KNOWN_TAG in tags)
+            key = tuple(sorted(set(tags) & set(KNOWN_TAGS)))
             if key in seen:
                 continue           # one record per class (known finding / anything else) and case
             seen.add(key)
@@ -585,10 +610,11 @@ def case_of_record(rec):
 def run(ctx, oracle_only=False):
     ctx.rule = RULE
     rng = ctx.rng
-    ctx.notes.append("excluded from generation (and from the theorems by the guard OldResolvable): structure with terms "
-                     "of a kind but no coefficient table + pattern with a coefficient table of that kind but no terms — "
-                     "the property's compatibility clause admits it ('one of the two has no terms'), the original terms "
-                     "then pick up the pattern's unused coefficients")
+    ctx.notes.append("the input class 'structure has terms of a kind but no coefficient table + pattern has a coefficient "
+                     "table of that kind but no terms' (inside the compatibility clause) is generated only by its own "
+                     "stream and by corpus/C06/orphan-coefficient-table.json; failures of exactly the clause 'surviving "
+                     "original term still resolves to none' there carry the tag orphan-coefficient-table (known finding "
+                     "C06-orphan-coefficient-table; Lean: orphan_table_corner, guard OldResolvable)")
     batch = Batch(ctx, oracle_only)
     # corpus first
     for rec in corpus_cases():
@@ -600,6 +626,13 @@ def run(ctx, oracle_only=False):
         # variant with INSERTED atoms on the real files: the bare linker is searched, the linker with its four Zr
         # neighbours is put in (the Zr atoms of the pattern are new atoms)
         cif_workflow(batch, steps=[("uio66-linker.cml", "uio66-linker-Zr-parameterized.lmpdat")])
+    batch.flush()
+    # the known finding C06-orphan-coefficient-table: its input class, every kind over time
+    north = ctx.n(3, 20)
+    start = (ctx.seed + rng.randrange(4)) % 4
+    for i in range(north):
+        batch.do(g.orphan_case(rng, KINDS[(start + i) % 4]))
+        ctx.count("orphan-stream")
     batch.flush()
     # every compatible combination for every kind (thorough: all; quick: a rotating sample)
     combos = []
